@@ -401,7 +401,19 @@ func (e *Engine) exec(f *frame, ins ssa.Instruction) {
 		lt := e.term(e.get(f, in.Len))
 		ct := e.term(e.get(f, in.Cap))
 		over := func(c *Term) {
-			e.x.report("alloc", pos(e.prog, f.fn, ins), e.userFunc(), fmt.Sprintf("make size can exceed limit %d (or be negative)", e.allocLimit), c)
+			// a size the input can push to 256 MiB or more (or negative) is the memory-exhaustion event (the native
+			// replay confirms it by a makeslice panic, an out-of-memory death or > 64 MiB allocated); sizes between
+			// the harness limit and that are outside the bound of the harness: the path is not followed, and recorded
+			for _, sz := range []*Term{lt, ct} {
+				huge := e.b.And(c, e.b.Bin(OBvULE, e.b.BVu(1<<28, 64), sz))
+				if e.x.feasible(huge) == "sat" {
+					e.x.report("alloc", pos(e.prog, f.fn, ins), e.userFunc(), "make size can reach 256 MiB or more (or be negative)", huge)
+					return
+				}
+			}
+			e.x.sh.mu.Lock()
+			e.x.sh.assumptions[fmt.Sprintf("bound: allocations of more than %d elements (and less than 256 MiB) are outside the harness bound", e.allocLimit)]++
+			e.x.sh.mu.Unlock()
 		}
 		ln := e.concInt(lt, true, "make len", 0, int64(e.allocLimit), over)
 		cp := ln
